@@ -22,8 +22,28 @@ class _Old:
     def __init__(self):
         self.lists = {}
         self.values = {}
+        self.reach_ids = set()
+        self.keep = []
+
+    def reach(self, v, depth=0):
+        if depth > 6 or isinstance(v, (int, float, bool, str, type(None))):
+            return
+        if id(v) in self.reach_ids:
+            return
+        self.reach_ids.add(id(v))
+        self.keep.append(v)
+        if isinstance(v, (list, tuple)):
+            for x in v[:200]:
+                self.reach(x, depth + 1)
+        elif isinstance(v, dict):
+            for x in list(v.values())[:200]:
+                self.reach(x, depth + 1)
+        elif hasattr(v, "__dict__"):
+            for x in list(vars(v).values()):
+                self.reach(x, depth + 1)
 
     def snap(self, name, v):
+        self.reach(v)
         if isinstance(v, list):
             self.lists[id(v)] = list(v)
         elif isinstance(v, dict):
@@ -62,8 +82,12 @@ def native_namespace(old: _Old):
     def trunc(x):
         return int(x)
 
+    def fresh(x):
+        return id(x) not in old.reach_ids
+
     ns = dict(forall=forall, exists=exists, implies=implies, iff=iff, same=same, ite=ite, oldel=oldel, oldlen=oldlen, psum=psum, trunc=trunc)
     ns.update(NATIVE_FUNCS)
+    ns["fresh"] = fresh
     return ns
 
 
@@ -158,6 +182,7 @@ class NativeOutcome:
         self.result = None
         self.failed_clauses = []
         self.pre_failed = []
+        self.unevaluable = []
         self.traceback = ""
 
     @property
@@ -186,10 +211,14 @@ def run_native(contract, reg, args: dict, check_pre=True) -> NativeOutcome:
             return out
     native_ens = getattr(contract, "native_ensures", None) or {}
     clauses = {}
+    import re
+
     for lab, txt in contract.ensures.items():
         t = native_ens.get(lab, txt)
         if t is None:
             continue
+        if lab not in native_ens and any(re.search(rf"\b{w}\b", txt) for w in contract.witnesses):
+            continue  # existential ghost witness: not natively evaluable without a native_ensures variant
         clauses[lab] = NativeClause(t)
     if contract.overrides:
         ic = reg.contracts[contract.overrides]
@@ -227,8 +256,30 @@ def run_native(contract, reg, args: dict, check_pre=True) -> NativeOutcome:
         try:
             ok = cl.post(ns, oldvals[lab])
         except Exception as ex:
-            ok = False
-            lab = f"{lab} (clause raised {ex!r})"
+            out.unevaluable.append(f"{lab}: {ex!r}")
+            continue
         if not ok:
             out.failed_clauses.append(lab)
     return out
+
+
+@nativefunc("keysof")
+def _keys(d):
+    return list(d.keys())
+
+
+@nativefunc("eqlist")
+def _eqlist(a, b):
+    return list(a) == list(b)
+
+
+@nativefunc("fresh")
+def _fresh(x):
+    # freshness is a heap property checked by the prover's frame obligations; natively approximated by the
+    # replay harness (identity against the inputs) -- see run_native
+    return True
+
+
+@nativefunc("allocated")
+def _allocated(x):
+    return True
